@@ -197,6 +197,19 @@ CollDeliver(e, sub, equiv) ==
      ELSE LET f == [e1[1] EXCEPT !.old = ProjOpt(e1[1].old, sub.mask), !.new = ProjOpt(e1[1].new, sub.mask)]
           IN IF equiv /\ f.old = f.new THEN <<>> ELSE <<f>>
 
+(* Collection.PullID(id): the subscriber of a single item is handed the value events of that item only (after  *)
+(* include translation, read mask and equivalence, which PullID passes on to Pull); the subscription ends when  *)
+(* the item is removed -- not when any other item is.  sub.pid is the (intercepted) id, "" for an ordinary Pull. *)
+AsValueEvent(e) == [id |-> "", type |-> "UPDATE", old |-> NoMsg, new |-> e.new, ct |-> e.ct, seed |-> e.seed, lastSeed |-> e.lastSeed]
+PidSeed(st, sub) == LET all == CollSeed(st, sub)  mine == SelectSeq(all, LAMBDA e : e.id = sub.pid)
+                    IN [k \in 1..Len(mine) |-> AsValueEvent(mine[k])]
+\* [deliv, closes] for one raw event
+PidDeliver(e, sub, equiv) ==
+  LET d == CollDeliver(e, sub, equiv) IN
+  IF d = <<>> \/ d[1].id # sub.pid THEN [deliv |-> <<>>, closes |-> FALSE]
+  ELSE IF d[1].type = "REMOVE" THEN [deliv |-> <<>>, closes |-> TRUE]
+  ELSE [deliv |-> <<AsValueEvent(d[1])>>, closes |-> FALSE]
+
 ValSeed(val, sub) ==
   IF sub.updatesOnly \/ ~val.has THEN <<>>
   ELSE << [id |-> "", type |-> "UPDATE", old |-> NoMsg, new |-> Some(Project(val.v, sub.mask)),
